@@ -10,6 +10,45 @@ use std::sync::atomic::{AtomicBool, AtomicU64, Ordering};
 use std::sync::Mutex;
 use std::time::Instant;
 
+// ------------------------------------------------------------------ output
+//
+// `Newton::<Cmplx>::solve` println!s on every iteration. For C17 the process points
+// fd 1 at /dev/null and the simulator writes its own lines to a saved duplicate.
+
+static OUT_FD: std::sync::atomic::AtomicI32 = std::sync::atomic::AtomicI32::new(1);
+
+pub fn silence_library_stdout() {
+    unsafe {
+        let saved = libc::dup(1);
+        let null = libc::open(b"/dev/null\0".as_ptr() as *const libc::c_char, libc::O_WRONLY);
+        if saved >= 0 && null >= 0 {
+            libc::dup2(null, 1);
+            libc::close(null);
+            OUT_FD.store(saved, Ordering::SeqCst);
+        }
+    }
+}
+
+pub fn say_str(s: &str) {
+    let fd = OUT_FD.load(Ordering::SeqCst);
+    let mut buf = Vec::with_capacity(s.len() + 1);
+    buf.extend_from_slice(s.as_bytes());
+    buf.push(b'\n');
+    let mut off = 0;
+    while off < buf.len() {
+        let r = unsafe { libc::write(fd, buf[off..].as_ptr() as *const libc::c_void, buf.len() - off) };
+        if r <= 0 {
+            break;
+        }
+        off += r as usize;
+    }
+}
+
+#[macro_export]
+macro_rules! say {
+    ($($arg:tt)*) => { $crate::core::say_str(&format!($($arg)*)) };
+}
+
 // ------------------------------------------------------------------ tiers
 
 #[derive(Clone, Copy, Debug, PartialEq, Eq)]
@@ -424,7 +463,7 @@ pub fn run_batch<P: Prop>(p: &P, opt: &Options) -> BatchResult {
         }
         seen_keys.push(group);
         if let Some(what) = known.matches(p.id(), &f.v.key) {
-            println!("KNOWN-FINDING: property={} {} [{}]", p.id(), what, f.v.key);
+            say!("KNOWN-FINDING: property={} {} [{}]", p.id(), what, f.v.key);
             n_known += 1;
             continue;
         }
@@ -436,12 +475,12 @@ pub fn run_batch<P: Prop>(p: &P, opt: &Options) -> BatchResult {
         let path = write_replay(p, opt, f.run, &small, &v);
         match confirm_in_fresh_process(&path, &v.class) {
             Ok(()) => {
-                println!("  class={} key={} run={} detail={}", v.class, v.key, f.run, v.detail);
-                println!("VIOLATION property={} replay={}", p.id(), path);
+                say!("  class={} key={} run={} detail={}", v.class, v.key, f.run, v.detail);
+                say!("VIOLATION property={} replay={}", p.id(), path);
                 exit_code = 1;
             }
             Err(e) => {
-                println!(
+                say!(
                     "HARNESS-ERROR property={} replay {} did not reproduce in a fresh process: {}",
                     p.id(),
                     path,
@@ -560,16 +599,16 @@ pub fn replay_file<P: Prop>(p: &P, doc: &Value) -> i32 {
     let mut st = Stats::new();
     match exec_guarded(p, &case, &mut st) {
         Ok(()) => {
-            println!("NOT-REPRODUCED property={} (case passes on this tree)", p.id());
+            say!("NOT-REPRODUCED property={} (case passes on this tree)", p.id());
             0
         }
         Err(v) => {
             if want.is_empty() || v.class == want {
-                println!("REPRODUCED class={} key={} detail={}", v.class, v.key, v.detail);
-                println!("log_digest={:016x}", st.log.finish());
+                say!("REPRODUCED class={} key={} detail={}", v.class, v.key, v.detail);
+                say!("log_digest={:016x}", st.log.finish());
                 1
             } else {
-                println!(
+                say!(
                     "REPRODUCED-DIFFERENT class={} (recorded {}) key={} detail={}",
                     v.class, want, v.key, v.detail
                 );
